@@ -164,6 +164,9 @@ def root_contract(k):
         exact = z3.Bool('root_exact!%d' % m.fresh_n)
         m.assume(z3.And(r >= lo, r <= hi))
         m.root_facts.append((N, r, exact))
+        if not hasattr(m, 'root_vars'):
+            m.root_vars = {}
+        m.root_vars[r.get_id()] = (N, r, exact, k)          # lets r*r / r.pow(k) be tied to `exact` (summaries.root_power)
         return r
     contract.__name__ = 'root%d_contract' % k
     return contract
